@@ -309,6 +309,48 @@ class View:
             info["edges"].append((None, t["otherwise"]))
         return info
 
+    def matches_source(self, bb):
+        """For a switch on a bool temporary produced by `matches!(place, Pattern)`: returns
+        (info of the discriminant switch, set of variant names that make it true) or None.
+        Shape: discriminant switch whose edges lead to blocks assigning const true / const false to one
+        local that is then switched on at bb."""
+        t = self.blocks[bb]["term"]
+        if t["k"] != "switch":
+            return None
+        d = t["discr"]
+        if d["k"] not in ("copy", "move") or d["place"]["p"]:
+            return None
+        l = d["place"]["l"]
+        if self.b.ltys(l) != "bool":
+            return None
+        wd = self.whole_defs(l)
+        trues = [x for x in wd if x[0] == "stmt" and x[3]["rv"]["k"] == "use" and x[3]["rv"]["op"].get("bool") is True]
+        falses = [x for x in wd if x[0] == "stmt" and x[3]["rv"]["k"] == "use" and x[3]["rv"]["op"].get("bool") is False]
+        if not trues or not falses or len(trues) + len(falses) != len(wd):
+            return None
+        for sb in sorted(self.reach):
+            info = self.switch_info(sb)
+            if not info or info["kind"] != "discr" or not self.dominates(sb, bb):
+                continue
+            names = set()
+            ok = True
+            for lb, tgt in info["edges"]:
+                if tgt in self.unreach:
+                    continue
+                reach = self.reachable(tgt, barrier=[bb])
+                hits_t = any(x[1] in reach for x in trues)
+                hits_f = any(x[1] in reach for x in falses)
+                if hits_t and hits_f:
+                    ok = False
+                if hits_t:
+                    if lb is None:
+                        names.update(info["others"] or [])
+                    else:
+                        names.add(lb)
+            if ok and names:
+                return info, names
+        return None
+
     def edge_target(self, info, label):
         for lb, tgt in info["edges"]:
             if lb == label:
